@@ -211,3 +211,23 @@ def new_object(cls, **attrs):
     for k, v in attrs.items():
         object.__setattr__(o, k, v)
     return o
+
+
+def sym_text(name):
+    """Any string at all.  Natively (replay / cross-check): drawn from a pool of awkward lines."""
+    pool = ["", " ", "\n", "#", "# comment", "*", "x * y # z", "000", "000 ", "garbage", "\x00\xff", "045  I --- 01:145038 --:------ 01:145038",
+            "045 RQ --- 18:000730 01:145038 --:------ 000A 002 08", "\u0663\u0663\u0663 RQ", "<", " < hint", "a" * 300]
+    return _get(name, lambda r: r.choice(pool))
+
+
+def is_concrete(x):
+    """True when x holds no symbolic part (always true natively)."""
+    return True
+
+
+_GHOSTS: dict = {}
+
+
+def ghost(name):
+    """A per-run ghost list (specification-only state shared by contract functions)."""
+    return _GHOSTS.setdefault(name, [])
